@@ -307,6 +307,8 @@ def _c18_worker(case):
             if not srcs:
                 return {"case": case, "msgs": [], "trivial": True, "error": None}
             val = {v: rng.randint(0, 1) for v in srcs}
+            if case.get("val"):
+                val = {v: int(b) for v, b in case["val"].items()}
             fixed_rules = "\n".join((f"{l.split(',')[0].strip()}, {'true' if val[l.split(',')[0].strip()] else 'false'}" if l.split(",")[0].strip() in val else l) for l in rules.splitlines())
             sd.expand_bfs(); sf = make_sd(fixed_rules); sf.expand_bfs()
             # the sub-diagram below the node of the valuation
@@ -332,6 +334,15 @@ def _c18_worker(case):
                 ib = attractor_ids(["".join(str(s[v]) for v in nm) for s in sb], attrs)
                 if ia != ib or None in ia:
                     msgs.append(("input-attractors", f"attractors below the input node {ia} vs attractors of the fixed-input network {ib}"))
+                # the same through the default flow (build() = block expansion with motif-avoidance checks)
+                sdb = make_sd(rules); sdb.build(); sfb = make_sd(fixed_rules); sfb.build()
+                st = lambda s_: "".join(str(int(s_[v])) for v in nm)
+                free_b = [st(s_) for i in sdb.expanded_ids() for s_ in sdb.node_attractor_seeds(i, compute=True)]
+                free_b = [x for x in free_b if all(x[nm.index(v)] == str(b) for v, b in val.items())]
+                fix_b = [st(s_) for i in sfb.expanded_ids() for s_ in sfb.node_attractor_seeds(i, compute=True)]
+                ja, jb = attractor_ids(free_b, attrs), attractor_ids(fix_b, attrs)
+                if sorted(x for x in ja if x is not None) != sorted(x for x in jb if x is not None) or None in ja or None in jb or len(set(ja)) != len(ja):
+                    msgs.append(("input-attractors-build", f"build(): attractors of the free-input network under {val}: {ja}; of the network with the inputs fixed: {jb}"))
         return {"case": case, "msgs": msgs, "error": None}
     except P.CaseTimeout:
         return {"case": case, "error": None, "timeout": True, "steps": []}
